@@ -73,4 +73,8 @@ CHECKS = {
    technique='exhaustive enumeration (all formulas <=2 operators of CTL*, CTL, LTL) + Hypothesis random formulas depth<=4; syntactic alphabet walk + equivalence decided by the independent reference on every small-scope structure / every lasso up to a length bound',
    text='get_equivalent_restricted_formula() must return an object of the same logic using only not, or, X, U, E (CTL: E with X/U/G), atoms and Booleans, and R-STAR / R-PATH must give it the same states on every structure of S(1)+S(2) (+S(3) stride) and the same truth values at every position of every lasso with |prefix|+|loop| <= 4/5; LNot(f) must not start with two negations, stay in the logic and be equivalent to not f.',
    note='Trusted: vp/ref.py. Equivalence is decided on the small scope only. LTL.A(g) is outside the domain (restricted LTL has no quantifier).'),
+ 'C06': dict(
+   technique='Hypothesis metamorphic testing (state bijections/namings, collection orders and container types, atom renamings, unreachable extensions) in 16 processes + differential across fresh interpreters started with different PYTHONHASHSEED values on a deterministic corpus',
+   text='Each generated (K, f, checker) is re-asked under a random state bijection composed with string/tuple/mixed/print-colliding namings, six collection orders, list/set/tuple containers, a consistent atom renaming (object or text), and a disjoint extension by states not reachable from K: the answer must be the image of the base answer. A deterministic corpus with string states and multi-character atoms is evaluated by one fresh interpreter per hash seed (4 quick / 16 thorough); all seeds must agree with each other and with R-STAR.',
+   note='Hash seeds are a finite sample. Part B trusts vp/ref.py; part A uses no reference.'),
 }
